@@ -39,6 +39,8 @@ def stage1(argv):
 def stage2(argv):
     import argparse
     bdir = os.environ["VERIF_BUILD"]
+    import warnings
+    warnings.simplefilter("ignore")     # numpy RuntimeWarnings from deliberately extreme inputs are noise here
     import esutil
     if not os.path.abspath(esutil.__file__).startswith(os.path.abspath(bdir) + os.sep):
         print("HARNESS-ERROR: esutil imported from %s, not from the snapshot %s" % (esutil.__file__, bdir))
